@@ -317,6 +317,27 @@ def gen_big_order(ctx, g):
     return c
 
 
+def unknown_join_table_probe(ctx, theorem):
+    """a JOIN against a table name the caller's single-table registry does not know (query_table binds the join table as b / B):
+    a mistake in the query text - a parsing error in both ports, before anything is written (finding D25: rbql-js said IO handling)"""
+    r = ctx.rng
+    cases = []
+    for name in ['c', 'bb', 'B2', 'join_table', 'a']:
+        for kind in ['join', 'left join', 'strict left join', 'inner join']:
+            q = 'select a1, NR %s %s on a1 == %s1' % (kind, name, 'b')
+            cases.append({'qa': None, 'q': q, 'qjs': q, 'A': [[r.choice(['k', 'm'])] for _ in range(r.randint(0, 2))], 'B': [['k']], 'tags': ['unknown_join_table'], 'part': 'unknown_join_table'})
+    exp = [{'error': ['P', 0, None]} for _ in cases]
+    for lang, got in (('js', lib.run_impl_js('engine', cases, shards=2)), ('py', lib.run_impl_py('engine', [dict(c, also_table=True) for c in cases], shards=2))):
+        def rel_(c, e, g):
+            g = g.get('table', g) if isinstance(g, dict) and 'table' in g and lang == 'py' else g
+            return isinstance(g, dict) and g.get('error') is not None and list(g['error'])[:1] == e['error'][:1] and not g.get('rows')
+        ctx.compare([dict(c, impl=lang) for c in cases], exp, got, theorem + ' ; error class of a static mistake (C14_static2_before_output): unknown JOIN table', rel=rel_,
+                    describe=lambda c, e, g: 'rbql-%s: %r with a join table bound as b: expected a parsing error and no output, got %s' % (c['impl'], c['q'], json.dumps(g)[:300]),
+                    corrupt=lambda e: {'error': ['IO', 0, None]})
+        ctx.count(len(cases))
+    ctx.stat('unknown_join_table_cases', 2 * len(cases))
+
+
 def js_leg(ctx, theorem, focus, n):
     """the JavaScript leg of an engine property (C01-C07 anchor rbql-js/rbql.js too): language-neutral queries of the given
     shape through rbql-js against the same reference model"""
@@ -396,6 +417,7 @@ def run(ctx):
             ctx.nontriv((c['qjs'], json.dumps(c['A']), json.dumps(c['B'])))
     for c, e, g_ in list(zip(cases, exp, got))[:3]:
         ctx.sample({'query_js': c['qjs'], 'A': c['A'], 'B': c['B'], 'model': e, 'rbql_js': g_})
+    unknown_join_table_probe(ctx, THEOREM)
     # "... the same result table, OUTPUT HEADER and error class": select lists of every item kind x header / join / DISTINCT [COUNT] /
     # EXCEPT / UPDATE through rbql-js query_table against the header model (Header.v, C07)
     import importlib
